@@ -347,11 +347,12 @@ package container
 //@   assigns H.st, H.batch, H.fds
 //@   ensures H.st == 0 || H.st == 9
 
-//@ func container.(*container).waitForDone props C10 C11
+//@ func container.(*container).waitForDone props C10 C11 C09
 //@   arith int
 //@   requires c != nil && ctx != nil && (H.st == 5 || H.st == 9)
-//@   assigns H.st, H.batch, H.fds
+//@   assigns H.st, H.batch, H.fds, CR.n, CR.status, CR.exit
 //@   ensures H.st == 0 || H.st == 9
+//@   ensures @C09 CR.n == old(CR.n) + 1 && result.Status == CR.status && result.ExitStatus == CR.exit
 
 // user callback of Execve
 //@ func funcvalue:container.ExecveParam.SyncFunc
@@ -361,7 +362,7 @@ package container
 //@ func container.(*container).Execve props C10
 //@   arith int
 //@   requires c != nil && ctx != nil && (H.st == 0 || H.st == 9)
-//@   assigns H.st, H.batch, H.fds
+//@   assigns H.st, H.batch, H.fds, CR.n, CR.status, CR.exit
 //@   ensures H.st == 0 || H.st == 9
 //@   callsite (*container).sendCmd: assert @C10 int(cmd.Cmd) == 5 ==> cmd.ExecCmd != nil
 
@@ -372,9 +373,14 @@ package container
 
 // Runner Error iff transport error, error reply or missing exec reply - always with a text;
 // otherwise status, exit value, time and memory are passed through unchanged.
+// (ghost CR: the verdict the conversion produced - the host hands exactly that verdict to its caller)
+//@ ghost CR.n int
+//@ ghost CR.status runner.Status
+//@ ghost CR.exit int
 //@ func container.convertReplyResult props C08 C09
 //@   arith int
-//@   assigns nothing
+//@   assigns CR.n, CR.status, CR.exit
+//@   abstracts CR.n == old(CR.n) + 1 && CR.status == result.Status && CR.exit == result.ExitStatus
 //@   ensures err != nil || reply.Error != nil || reply.ExecReply == nil ==> int(result.Status) == 8
 //@   ensures err != nil ==> len(result.Error) > 0
 //@   ensures err == nil && reply.Error == nil && reply.ExecReply == nil ==> len(result.Error) > 0
